@@ -10,6 +10,7 @@ import (
 	"path/filepath"
 	"regexp"
 	"sort"
+	"strconv"
 	"strings"
 	"sync"
 	"time"
@@ -266,7 +267,7 @@ var creds = []string{"header", "basic+query", "bearer", "header", "none", "wrong
 
 // hostileTexts are values an intermediary (or a careless peer) may put where a parameter is expected.
 var hostileTexts = []string{"", " ", "1 ", " 1", "+1", "-", "--1", "1.0", "1e3", "0x10", "1_000", "９", "99999999999999999999", "-99999999999999999999",
-	"2147483648", "NaN", "Inf", "true", "null", "1,2", "1;2", "\x7f", "a:b", "://x", "http://[::1", "http://h:port/", "2021-13-45", "2021-02-30", "2021-1-2",
+	"2147483648", "300", "-129", "256", "70000", "65536", "-32769", "128", "-1", "4294967296", "NaN", "Inf", "true", "null", "1,2", "1;2", "\x7f", "a:b", "://x", "http://[::1", "http://h:port/", "2021-13-45", "2021-02-30", "2021-1-2",
 	"0000-00-00", "3fa85f64-5717-4562-b3fc-2c963f66afa", "zfa85f64-5717-4562-b3fc-2c963f66afa6", "{}", "[]", "256.1.1.1", "1.2.3", "P1D", "1h", "-1s",
 	"2021-01-02 03:04:05", "12", "delta", "Alpha", strings.Repeat("1", 5000), strings.Repeat("a", 70000)}
 
@@ -397,6 +398,16 @@ func certainlyInvalid(typ, text string) bool {
 		return false
 	}
 	switch typ {
+	case "int8", "int16", "uint8", "uint16":
+		if certainlyInvalid("int64", text) {
+			return true
+		}
+		v, err := strconv.ParseInt(text, 10, 64)
+		if err != nil {
+			return false // a spelling this rule does not judge
+		}
+		lim := map[string][2]int64{"int8": {-128, 127}, "int16": {-32768, 32767}, "uint8": {0, 255}, "uint16": {0, 65535}}[typ]
+		return v < lim[0] || v > lim[1]
 	case "int32", "int64", "int":
 		digits := 0
 		for _, c := range text {
@@ -446,7 +457,8 @@ func certainlyInvalid(typ, text string) bool {
 // worldParamTypes: the typed parameters of the world an intermediary can be aimed at, per operation.
 var worldParamTypes = map[string]map[string]string{
 	"echoShapes": {"query:n32": "int32", "query:id": "uuid", "query:when": "date", "query:at": "date-time", "query:addr": "ipv4", "header:X-Num": "int64", "cookie:cnum": "int", "path:2": "kind",
-		"query:link": "", "query:ratio": "", "query:dur": "", "query:big": "", "header:X-Flag": ""},
+		"query:link": "", "query:ratio": "", "query:dur": "", "query:big": "", "header:X-Flag": "",
+		"query:lvl": "int8", "header:X-Cnt": "int16", "cookie:u8": "uint8", "query:u16s": ""},
 	"echoJSON":   {"path:2": "int64", "header:X-Req": "", "query:q": "", "cookie:sess": ""},
 	"echoStream": {"header:X-Len": "int"},
 	"echoParams": {"path:3": "", "query:csv": "", "header:X-List": "", "cookie:ck": ""},
